@@ -17,8 +17,13 @@ func IsTruthy(val any) bool {
 			return false
 		}
 		return true
-	case int, int8, int16, int32, int64, uint, uint8, uint16, uint32, uint64, uintptr, float32, float64:
+	case int, int8, int16, int32, int64, uint, uint8, uint16, uint32, uint64, uintptr:
 		return fmt.Sprintf("%v", b) != "0"
+	case float32:
+		// compared as numbers: negative zero is zero, though it prints as -0
+		return b != 0
+	case float64:
+		return b != 0
 	case nil:
 		return false
 	default:
